@@ -104,6 +104,8 @@ func (d *digest) add(s string) {
 }
 func (d *digest) String() string { return hex.EncodeToString(d.h[:8]) }
 
+var traceOps = os.Getenv("VERIF_TRACE") != ""
+
 // RunCase generates and executes one history under the monitors.
 func RunCase(seed uint64, idx int, p *Profile, o *Opts, st *Stats) (cr *CaseResult) {
 	defer func() {
@@ -195,6 +197,13 @@ func RunCase(seed uint64, idx int, p *Profile, o *Opts, st *Stats) (cr *CaseResu
 			resB = twin.Exec(op, x, i)
 		}
 		cr.NOps++
+		if traceOps {
+			name := ""
+			if op.K == KMisuse {
+				name = MisuseTable[op.Slot].Name
+			}
+			fmt.Fprintf(os.Stderr, "TRACE case=%d op#%d panicked=%v %v %s %s\n", idx, i, res.Panicked, res.PanicVal, name, s)
+		}
 		if o.Digest {
 			// which calls panic is part of the observable behaviour (C12, C20)
 			if res.Panicked {
